@@ -16,6 +16,7 @@ function's terms.
 """
 from .mir import op_place, op_const
 from .value import walk
+from . import iters
 
 # name -> (kind, index of the path-like argument or None)
 VOCAB = {
@@ -81,15 +82,7 @@ REMOVING = {'REMOVE_FILE', 'REMOVE_DIR', 'REMOVE_TREE'}
 GROUP = {'REMOVE_FILE': 'REMOVE', 'REMOVE_DIR': 'REMOVE', 'REMOVE_TREE': 'REMOVE'}
 
 
-def canon(v):
-    """value with call-site identities removed (for comparing values computed at different sites)"""
-    if not isinstance(v, tuple) or not v:
-        return v
-    if v[0] == 'call' and len(v) == 4:
-        return ('call', v[1], tuple(canon(x) for x in v[2]))
-    if v[0] == 'icall' and len(v) == 4:
-        return ('icall', canon(v[1]), tuple(canon(x) for x in v[2]))
-    return tuple(canon(x) if isinstance(x, tuple) else x for x in v)
+from .value import canon, subst as _vsubst  # noqa: E402
 
 
 def eff_key(e):
@@ -290,6 +283,19 @@ class Effects:
             work.extend(preds[b])
         return [c for c in fn.calls if c.bb in reach and c.bb in back]
 
+    def _unrollable(self, fn, c):
+        """collection of the innermost loop around call c when that collection decomposes into alternatives
+        (literal table, once/chain/map pipeline); None for ordinary loops and straight-line code"""
+        best = None
+        for L in self.loops(fn):
+            if c.bb in L.body and c.bb != L.header and L.collection is not None:
+                if best is None or len(L.body) < len(best.body):
+                    best = L
+        if best is None:
+            return None
+        al = iters.alts(self.slicer, best.collection)
+        return None if iters.trivial(al, best.collection) else best.collection
+
     def feasible(self, fn, bb, mapping):
         """constant pruning: a block guarded by `x is Variant V` is infeasible when the substituted x
         is a literal of another variant (e.g. the Replace arm when the caller passes Keep)"""
@@ -307,34 +313,11 @@ class Effects:
 
     # ---- substitution -------------------------------------------------------------------------
     def subst(self, v, mapping):
-        if not isinstance(v, tuple) or not v:
-            return v
-        if v[0] == 'param':
-            r = mapping.get((v[1], v[2]))
-            return r if r is not None else v
-        if v[0] in ('const', 'fnitem', 'constitem', 'unknown', 'closure_env'):
-            return v
-        out = []
-        changed = False
-        for x in v:
-            if isinstance(x, tuple):
-                y = self.subst(x, mapping)
-                changed = changed or (y is not x)
-                out.append(y)
-            else:
-                out.append(x)
-        if not changed:
-            return v
-        nv = tuple(out)
-        # re-normalise projections of substituted aggregates
-        if nv[0] == 'field' and nv[1][0] in ('agg', 'tuple', 'closure', 'phi'):
-            return self.slicer._field(nv[1], nv[2])
-        if nv[0] == 'variant' and nv[1][0] in ('agg', 'phi'):
-            return self.slicer._variant(nv[1], nv[2])
-        return nv
+        return _vsubst(v, mapping, self.slicer) if mapping else v
 
     def call_mapping(self, caller, call, callee, mapping):
         m = dict(mapping)
+        m.pop('__repl__', None)
         for i, a in enumerate(call.args):
             if i < callee.argc:
                 m[(callee.path, i)] = self.subst(self.slicer.operand(caller, a), mapping)
@@ -376,12 +359,98 @@ class Effects:
         if mode == 'must':
             calls = self.must_calls(fn, site_bbs)
         else:
-            calls = [(c, None) for c in self.may_calls(fn, site_bbs) if self.feasible(fn, c.bb, mapping)]
+            calls = [(c, self._unrollable(fn, c)) for c in self.may_calls(fn, site_bbs) if self.feasible(fn, c.bb, mapping)]
         for c, forall in calls:
             self._expand_call(fn, c, forall, mode, mapping, chain, _stack, out)
         return out
 
     def _expand_call(self, fn, c, forall, mode, mapping, chain, stack, out):
+        """effects of one call site; a call inside a loop over a decomposable collection (literal table,
+        once/chain/map pipeline, collected Vec) is expanded once per alternative element"""
+        if forall is not None:
+            al = iters.alts(self.slicer, forall)
+            if not iters.trivial(al, forall):
+                key = iters.loop_key(forall)
+                for elem, fa, filtered in al:
+                    if filtered and mode == 'must':
+                        continue
+                    m = dict(mapping)
+                    m['__repl__'] = list(mapping.get('__repl__', ())) + [(key, self.subst(elem, mapping))]
+                    self._expand_call1(fn, c, fa, mode, m, chain, stack, out)
+                return
+        self._expand_call1(fn, c, forall, mode, mapping, chain, stack, out)
+
+    def _closure_fn(self, v):
+        if isinstance(v, tuple) and v and v[0] in ('closure', 'fnitem'):
+            g = self.prog.fns.get(v[1])
+            if g is not None:
+                return g, (1 if v[0] == 'closure' else 0)
+        return None, 0
+
+    def _expand_closure(self, fn, c, clv, bind, forall, mode, mapping, chain, stack, out):
+        """run closure value clv (in fn's terms) with its parameters bound to `bind` (list of values in fn's terms)"""
+        g, off = self._closure_fn(clv)
+        if g is None:
+            return
+        m = dict(mapping)
+        m.pop('__repl__', None)
+        for i, b in enumerate(bind):
+            if b is not None:
+                m[(g.path, off + i)] = self.subst(b, mapping)
+        sub = self.expand(g, mode, None, m, chain + (c,), stack)
+        fa = self.subst(forall, mapping) if forall is not None else None
+        for e in sub:
+            if e.forall is None and fa is not None:
+                e.forall = fa
+        out.extend(sub)
+
+    def _expand_iter(self, fn, c, forall, mode, mapping, chain, stack, out):
+        """closures handed to iterator adapters behave like loop bodies.  Returns True when the call was handled."""
+        d = c.decl
+        if d in iters.LAZY_WITH_CLOSURE and len(c.args) == 2:
+            if mode == 'may':
+                recv = self.slicer.operand(fn, c.args[0])
+                clv = self.slicer.operand(fn, c.args[1])
+                for elem, fa, _ in iters.alts(self.slicer, recv):
+                    self._expand_closure(fn, c, clv, [elem], fa if forall is None else forall, 'may', mapping, chain, stack, out)
+            return True
+        if d in iters.CONSUME_EACH or d in iters.CONSUME_ALL:
+            ridx = 1 if d == 'std::iter::Extend::extend' else 0
+            if ridx >= len(c.args):
+                return False
+            recv = self.slicer.operand(fn, c.args[ridx])
+            if mode == 'must':
+                for name, clv, rv in iters.stages(recv):
+                    for elem, fa, filtered in iters.alts(self.slicer, rv):
+                        if not filtered:
+                            self._expand_closure(fn, c, clv, [elem], fa if forall is None else forall, 'must', mapping, chain, stack, out)
+            cl_idx = {iters.IT + 'try_for_each': (1, 0), iters.IT + 'for_each': (1, 0), iters.IT + 'fold': (2, 1),
+                      iters.IT + 'try_fold': (2, 1)}.get(d)
+            if cl_idx and cl_idx[0] < len(c.args):
+                clv = self.slicer.operand(fn, c.args[cl_idx[0]])
+                for elem, fa, filtered in iters.alts(self.slicer, recv):
+                    if filtered and mode == 'must':
+                        continue
+                    bind = [None] * cl_idx[1] + [elem]
+                    self._expand_closure(fn, c, clv, bind, fa if forall is None else forall, mode, mapping, chain, stack, out)
+                return True
+            return mode == 'must' or not self.prog.fn_item_args(c)
+        return False
+
+    # closures handed to Option / Result combinators: which payload their first parameter receives
+    COMB_OK = ('::map', '::and_then', '::is_some_and', '::is_ok_and', '::inspect', '::filter', '::map_or', '::map_or_else', '::is_none_or')
+    COMB_ERR = ('::map_err', '::or_else', '::unwrap_or_else', '::inspect_err', '::is_err_and')
+
+    def _comb_binding(self, c, recv):
+        n = c.decl or ''
+        if n.startswith(('std::option::Option::', 'std::result::Result::')):
+            if n.endswith(self.COMB_ERR) and n.startswith('std::result::Result::'):
+                return ('unwrap_err', recv)
+            if n.endswith(self.COMB_OK):
+                return ('unwrap', self.slicer._ok_core(recv))
+        return None
+
+    def _expand_call1(self, fn, c, forall, mode, mapping, chain, stack, out):
         if c.indirect:
             callee_v = self.subst(self.slicer.operand(fn, c.fop), mapping)
             args = tuple(self.subst(self.slicer.operand(fn, a), mapping) for a in c.args)
@@ -390,6 +459,8 @@ class Effects:
         if c.decl in ('std::ops::Fn::call', 'std::ops::FnMut::call_mut', 'std::ops::FnOnce::call_once'):
             args = tuple(self.subst(self.slicer.operand(fn, a), mapping) for a in c.args)
             out.append(Eff('CALLBACK', args[0] if args else None, c, chain, mode == 'must', forall, args))
+            return
+        if c.decl and c.decl.startswith('std::iter::') and self._expand_iter(fn, c, forall, mode, mapping, chain, stack, out):
             return
         ve = vocab_lookup(c, self.vocab)
         if ve:
@@ -414,8 +485,18 @@ class Effects:
             out.append(Eff('CALLBACK', ('fnitem', c.decl), c, chain, mode == 'must', forall, args))
         # closures / fn items handed to the call may run: MAY effects only
         if mode == 'may':
-            for g in self.prog.fn_item_args(c):
-                out.extend(self.expand(g, 'may', None, mapping, chain + (c,), stack))
+            gs = self.prog.fn_item_args(c)
+            if gs:
+                recv = self.slicer.operand(fn, c.args[0]) if c.args else None
+                b = self._comb_binding(c, recv) if recv is not None else None
+                for a in c.args:
+                    clv = self.slicer.operand(fn, a)
+                    g, off = self._closure_fn(clv)
+                    if g is not None and g in gs:
+                        gs = [x for x in gs if x is not g]
+                        self._expand_closure(fn, c, clv, [b] if (b is not None and g.argc > off) else [], forall, 'may', mapping, chain, stack, out)
+                for g in gs:
+                    out.extend(self.expand(g, 'may', None, mapping, chain + (c,), stack))
 
     # ---- returned values -------------------------------------------------------------------------
     def returned(self, fn, site, mapping=None, _stack=()):
@@ -494,7 +575,7 @@ def outcomes(E, fn, mapping=None, chain=(), stack=()):
             if site.kind == 'tail' and c is site.call:
                 continue
             n0 = len(may)
-            E._expand_call(fn, c, None, 'may', mapping, chain, stack + (fn.path,), may)
+            E._expand_call(fn, c, E._unrollable(fn, c), 'may', mapping, chain, stack + (fn.path,), may)
             for e in may[n0:]:
                 e.level, e.level_bb = level, c.bb
         conds = []
